@@ -18,7 +18,7 @@ LEVEL_TEXT = ("Coq theorems over a Gallina model of exec_command_unregister / un
               "all TTL 0), it is queued once for now + 120 and repeated unchanged on the same interface and family; shutdown "
               "says goodbye once per service and leaves nothing to repeat; a pending second announcement of an unregistered "
               "service does nothing and no query is answered without an announced service. The executable statement chk_C09 "
-              "(replies, goodbyes, silence, judged against the model's state) runs as a monitor on the real daemon thread in "
+              "(replies, goodbyes, the wake-up requested for the repeat, silence, judged against the model's state) runs as a monitor on the real daemon thread in "
               "the simulated world")
 TECHNIQUE = ("machine-checked proof in Coq (functional specification of the goodbye, frame property of unregister) + "
              "model/implementation correspondence on simulated-daemon histories")
@@ -27,7 +27,8 @@ RULE = ("simulated histories over 1-3 services and 1-2 interfaces: unregister at
         "probes, at completion, after the first / second announcement), unknown, differently-cased and truncated names, "
         "double unregister, re-registration (same and changed data), shutdown at every phase and after it, queries of every "
         "type before and after, services renamed by injected conflicts, addr_auto services with interfaces disabled and "
-        "enabled. Non-trivial = at least one packet sent")
+        "enabled; v4-only and v6-only interface tables (fixed and addr_auto addresses) with the periodic interface check "
+        "switched off, unregister, then a timer-exact run. Non-trivial = at least one packet sent")
 TRUSTED = [
     "Coq 8.16.1 kernel (coqc); vm_compute only in Examples and witness lemmas",
     "axioms: none (Print Assumptions: Closed under the global context for every theorem)",
@@ -71,6 +72,14 @@ def generate(rng, tier):
     add(reglib.gen_registration_history, 80 * k, "reg")
     add(reglib.gen_two_daemon_history, 40 * k, "two")
     add(reglib.gen_iface_toggle_history, 120 * k, "toggle")
+    add(reglib.gen_goodbye_repeat_history, 160 * k, "repeat")
+    for cfg in ("v4", "v6"):
+        for auto in (False, True):
+            for off in (True, False):
+                for i in range(3):
+                    h = reglib.gen_goodbye_repeat_history(rng, "rgrid-%s-%d-%d-%d" % (cfg, auto, off, i), cfg, auto, off)
+                    h.pop("meta", None)
+                    cases.append(Case(reglib.jdump(h), "repeat-grid"))
     return cases
 
 
